@@ -377,8 +377,9 @@ get_alias_list = Fn(S, 'get_alias_list', impl='Shell', ret='r',
 )
 get_alias_content = Fn(S, 'get_alias_content', impl='Shell', pre_rewrites=HM, ret='r',
     ensures=[('C17.table.content',
-              'match r { Some(v) => smap(self.aliases).contains_key(name@) && v@ == smap(self.aliases)[name@] && v@.len() > 0, '
-              'None => !smap(self.aliases).contains_key(name@) || smap(self.aliases)[name@].len() == 0 }')])
+              # (an alias defined as nothing is still an alias: `Some` exactly for a defined name, whatever its value)
+              'match r { Some(v) => smap(self.aliases).contains_key(name@) && v@ == smap(self.aliases)[name@], '
+              'None => !smap(self.aliases).contains_key(name@) }')])
 
 # the line `alias` prints for one definition: reading it back must define the same alias (C17): the value sits between two quote
 # characters of a kind that does not occur in it (when the value does not contain both kinds)
@@ -415,7 +416,7 @@ expand_one_env = Fn(S, 'expand_one_env', ret='r',
              ('C10+C05.one_env.rest_is_shorter', 'r.1@.len() < token@.len() || r.1@.len() == 0')],
 )
 
-ALIAS_MATCH = 'is_head_at(tokens@, K) && smap(sh.aliases).contains_key(tokens@[K].1@) && smap(sh.aliases)[tokens@[K].1@].len() > 0'
+ALIAS_MATCH = 'is_head_at(tokens@, K) && smap(sh.aliases).contains_key(tokens@[K].1@)'
 
 expand_alias = Fn(S, 'expand_alias', rewrites=TYRW + [
         Rw('let linfo = parse_line(text);', 'let tokens_ = vx_parse_line_tokens(text);', rule='R10',
